@@ -48,6 +48,12 @@ struct Res {
   bool msg_null = false, msg_dangling = false, file_null = false, file_dangling = false;
   std::exception_ptr held;   // the exception object itself, kept alive for later re-inspection
   int seen_uncaught = -1;    // std::uncaught_exceptions() right before the helper was called
+  // Round 5: the macro call is not instantiated when it is ill-formed for the operand / predicate types (feature test
+  // with a requires-expression), so that a change which makes a form ill-formed is a keyed finding and not a build
+  // failure of the whole harness.  0 = well-formed (the call was made); 1 = ill-formed, and the library's funnel
+  // expect_generic(bool, ...) could never take the value (it converts to bool only explicitly): not applicable;
+  // 2 = ill-formed although the value converts implicitly to bool: reported.
+  int ill_formed = 0;
   bool seen_current = false; // std::current_exception() != nullptr right before the helper was called
 };
 
@@ -196,29 +202,36 @@ extern const std::string kCustomMsg;
 const std::vector<std::string>& rel_parts(int rel);
 
 // rel: 0 expect(a == b), 1 expect_eq, 2 expect_ne, 3 expect_msg(a == b, custom), 4 expect_gt, 5 expect_ge, 6 expect_lt, 7 expect_le
+// 1 / 2 as in Res::ill_formed, for a relation whose C++ result has type R
+template <class R>
+constexpr int ill_code = std::is_convertible_v<R, bool> ? 2 : 1;
+
 template <class A, class B>
 Res call_rel(int rel, const A& a, const B& b, bool& truth, Site& site) {
   site.file = __FILE__;
   constexpr bool ordered = requires { a < b; a <= b; a > b; a >= b; };
-  return probe([&] {
+  int ill = 0;
+  Res res = probe([&] {
     // clang-format off
     switch (rel) {
-      case 0: truth = bool(a == b); site.line = __LINE__; expect(a == b); break;
-      case 1: truth = bool(a == b); site.line = __LINE__; expect_eq(a, b); break;
-      case 2: truth = bool(a != b); site.line = __LINE__; expect_ne(a, b); break;
-      case 3: truth = bool(a == b); site.line = __LINE__; expect_msg(a == b, "custom message: a and b differ (100% sure)"); break;
+      case 0: truth = bool(a == b); if constexpr (requires { expect(a == b); }) { site.line = __LINE__; expect(a == b); } else ill = ill_code<decltype(a == b)>; break;
+      case 1: truth = bool(a == b); if constexpr (requires { expect_eq(a, b); }) { site.line = __LINE__; expect_eq(a, b); } else ill = ill_code<decltype(a == b)>; break;
+      case 2: truth = bool(a != b); if constexpr (requires { expect_ne(a, b); }) { site.line = __LINE__; expect_ne(a, b); } else ill = ill_code<decltype(a != b)>; break;
+      case 3: truth = bool(a == b); if constexpr (requires { expect_msg(a == b, "m"); }) { site.line = __LINE__; expect_msg(a == b, "custom message: a and b differ (100% sure)"); } else ill = ill_code<decltype(a == b)>; break;
       default:
         if constexpr (ordered) {
           switch (rel) {
-            case 4: truth = bool(a > b); site.line = __LINE__; expect_gt(a, b); break;
-            case 5: truth = bool(a >= b); site.line = __LINE__; expect_ge(a, b); break;
-            case 6: truth = bool(a < b); site.line = __LINE__; expect_lt(a, b); break;
-            case 7: truth = bool(a <= b); site.line = __LINE__; expect_le(a, b); break;
+            case 4: truth = bool(a > b); if constexpr (requires { expect_gt(a, b); }) { site.line = __LINE__; expect_gt(a, b); } else ill = ill_code<decltype(a > b)>; break;
+            case 5: truth = bool(a >= b); if constexpr (requires { expect_ge(a, b); }) { site.line = __LINE__; expect_ge(a, b); } else ill = ill_code<decltype(a >= b)>; break;
+            case 6: truth = bool(a < b); if constexpr (requires { expect_lt(a, b); }) { site.line = __LINE__; expect_lt(a, b); } else ill = ill_code<decltype(a < b)>; break;
+            case 7: truth = bool(a <= b); if constexpr (requires { expect_le(a, b); }) { site.line = __LINE__; expect_le(a, b); } else ill = ill_code<decltype(a <= b)>; break;
           }
         }
     }
     // clang-format on
   });
+  res.ill_formed = ill;
+  return res;
 }
 
 struct RelSweep {
@@ -230,5 +243,18 @@ struct RelSweep {
 };
 // All relations x all ordered pairs x the given contexts.
 void sweep_relations(vf::Run& r, const RelSweep& s, const std::vector<int>& ctxs);
+
+// expect(v) / expect_msg(v, msg) / expect_generic(v, ...) / expect(!v) for one predicate type (typed front end:
+// C19_pred.hh).  wf[form]: the call compiles for this type (feature test); implicit_bool: the type converts implicitly to
+// bool, i.e. the library's funnel expect_generic(bool, ...) accepts it.
+struct PredSweep {
+  const char* tname;
+  size_t n;
+  bool wf[4];
+  bool implicit_bool;
+  std::function<Res(int form, size_t i, bool& truth, Site& site)> call;
+  std::function<std::string(size_t)> show;
+};
+void sweep_predicates(vf::Run& r, const PredSweep& s, const std::vector<int>& ctxs);
 
 }  // namespace c19
